@@ -463,8 +463,14 @@ impl Mon {
                         // must be the concatenation of everything pending
                         let expect: Vec<D> = self.msgs[s.pos_msg..].iter().flatten().cloned().collect();
                         if ds.len() != expect.len() || ds.iter().zip(&expect).any(|(a, b)| !a.same_values(b)) {
-                            // a subscriber that is behind beyond the capacity must get a Reset (C06)
-                            let tag = if undelivered > cap { "C05|C06" } else { "C05" };
+                            // a subscriber that is behind beyond the capacity must get a Reset (C06); a committed
+                            // transaction among the pending messages that does not arrive as published: C07 too
+                            let has_commit = (s.pos_msg..n_msgs).any(|k| self.commit_msgs.contains(&k));
+                            let tag = match (undelivered > cap, has_commit) {
+                                (true, _) => "C05|C06",
+                                (false, true) => "C05|C07",
+                                (false, false) => "C05",
+                            };
                             return div(
                                 tag,
                                 format!("batched s{i} received {} but the pending messages are {}", show_diffs(&ds), show_diffs(&expect)),
@@ -753,7 +759,7 @@ fn step_vop(ob: &mut ObservableVector<Tracked>, vop: &VOp, mon: &mut Mon) -> Res
                     any_clear = false;
                     let seen = vals(&contents(&tx));
                     if seen != work {
-                        return div("C07", format!("after rollback the transaction shows {seen:?}, expected {work:?}"));
+                        return div("C07|C17", format!("after rollback the transaction shows {seen:?}, expected {work:?}"));
                     }
                     phase(&mut tx, more, &mut work, &mut certain, &mut any_clear, mon)?;
                     *c
@@ -872,7 +878,7 @@ fn step_vop(ob: &mut ObservableVector<Tracked>, vop: &VOp, mon: &mut Mon) -> Res
             // C05: the messages of this call take the replica from before to after
             // "exactly one diff" is stated for the direct mutators; through entry/entries/for_each only
             // "the diffs take the replica from the state before to the state after"
-            let direct = !matches!(vop, VOp::ForEach(_) | VOp::Entries(_) | VOp::EntrySet(..) | VOp::EntryRemove(_));
+            let direct = !matches!(vop, VOp::ForEach(_) | VOp::Entries(_) | VOp::EntrySet(..) | VOp::EntrySetTwice(..) | VOp::EntryRemove(_));
             let mut r = before.clone();
             for msg in new {
                 if direct && msg.len() != 1 {
